@@ -1,4 +1,5 @@
 import Chain33Model.Proofs.C01Batch
+import Chain33Model.Proofs.C01Store
 /-!
 C01 — State tree behaves as a persistent versioned map.  Property theorems only (helpers: Proofs/C01*.lean).
 
@@ -103,5 +104,59 @@ theorem iterate_all (start stop : Option Bytes) (asc incl : Bool) (t : Node) (hs
 
 /-- stored `size` = number of leaves (so `Tree.Size` is the number of keys of the state). -/
 theorem size_is_count (t : Node) (hwf : WF t) : t.size = t.toList.length := size_eq_length t hwf
+
+/-! ### persistence: committed versions stay readable (node records, `save` / `load`) -/
+
+/-- **load_stored** — a tree whose records are in the database (`Stored`) is read back exactly: same keys, values
+(elided under MVCC), stored heights/sizes and node keys; `FitsRec` = the tree fits the Go/wire types. -/
+theorem load_stored (cfg : Cfg) (db : NodeDB) (n : Node) (hs : Stored cfg db n) (hf : FitsRec n)
+    (fuel : Nat) (top : Bool) (h : Bytes) (hh : n.info.hk = some h) (hd : depth n < fuel) :
+    load db fuel top h = .ok (asLoaded cfg n) :=
+  load_of_stored cfg db n hs hf fuel top h hh hd
+
+/-- **old_roots_stable** — whatever is committed later, and after close + reopen (the same record map): as long
+as the earlier records are still there (`Sub db db'`), every earlier root loads to exactly the same tree. -/
+theorem old_roots_stable (cfg : Cfg) (db db' : NodeDB) (hsub : Sub db db') (n : Node) (hs : Stored cfg db n)
+    (hf : FitsRec n) (fuel : Nat) (top : Bool) (h : Bytes) (hh : n.info.hk = some h) (hd : depth n < fuel) :
+    load db' fuel top h = load db fuel top h :=
+  load_stable cfg db db' hsub n hs hf fuel top h hh hd
+
+/-- full statement aimed at for `save`: saving a hashed tree makes it loadable and keeps every earlier record,
+or the hash function has a collision (content addressing), with no side condition on the records. -/
+def LoadSaveFull : Prop :=
+  ∀ (H : Bytes → Bytes), (∀ x, (H x).length = 32) → ∀ (cfg : Cfg) (n n' : Node) (db db' : NodeDB),
+    C03.Hashed H n → save cfg n db = some (n', db') → PersistedStored cfg db n → FitsRec n →
+    ∀ (root : Bytes), n.info.hk = some root → ∀ (fuel : Nat) (top : Bool), depth n < fuel →
+      (load db' fuel top root = .ok (asLoaded cfg n) ∧ Sub db db' ∧ Stored cfg db' n') ∨ C03.Collision H
+
+/-- **load_save_partial** — `LoadSaveFull` with the added hypothesis `Consistent`: no database key receives two
+different records (neither among the records written by this `save`, nor against a record already present).
+Under a fixed configuration without height prefix this is what collision-freeness gives (key = hash of the
+content); deriving it from `¬ Collision H` is left open, and with the height prefix it can genuinely fail for the
+*root* record (same root hash, other child keys — the C02 finding lives there).  Then: the saved tree is read back
+exactly, every earlier record is kept (so `old_roots_stable` applies to all earlier roots), and the returned tree
+is stored. -/
+theorem load_save_partial (cfg : Cfg) (n n' : Node) (db db' : NodeDB) (hsave : save cfg n db = some (n', db'))
+    (hps : PersistedStored cfg db n) (hf : FitsRec n)
+    (hc : ∀ ws, writes cfg n = some ws → Consistent ws db)
+    (root : Bytes) (hroot : n.info.hk = some root) (fuel : Nat) (top : Bool) (hd : depth n < fuel) :
+    load db' fuel top root = .ok (asLoaded cfg n) ∧ Sub db db' ∧ Stored cfg db' n' :=
+  load_save cfg n n' db db' hsave hps hf hc root hroot fuel top hd
+
+/-- non-vacuity of `load_save_partial` / `load_stored`: a fresh leaf saved into the empty database. -/
+example : ∃ (n' : Node) (db' : NodeDB),
+    save Cfg.default (.leaf [1] [2] ⟨some [9], false⟩) {} = some (n', db') ∧
+    PersistedStored Cfg.default {} (.leaf [1] [2] ⟨some [9], false⟩) ∧ FitsRec (.leaf [1] [2] ⟨some [9], false⟩) ∧
+    (∀ ws, writes Cfg.default (.leaf [1] [2] ⟨some [9], false⟩) = some ws → Consistent ws {}) := by
+  refine ⟨_, _, rfl, ?_, ?_, ?_⟩
+  · intro h; simp at h
+  · refine ⟨by decide, by decide, ?_⟩
+    intro h e; simp at e; subst e; decide
+  · intro ws e
+    simp [writes] at e
+    subst e
+    refine ⟨?_, ?_⟩
+    · intro p hp q hq _; simp at hp hq; rw [hp, hq]
+    · intro p hp v hv; simp at hv
 
 end C01
